@@ -2,6 +2,7 @@
 use crate::prelude::*;
 
 //third-party shortcuts
+use bevy::ecs::entity::Entities;
 use bevy::prelude::*;
 use bevy::utils::{HashMap, HashSet};
 use crossbeam::channel::{Receiver, Sender};
@@ -351,7 +352,11 @@ impl ReactCache
         mut cache       : ResMut<ReactCache>,
         mut commands    : Commands,
         entity_reactors : Query<&EntityReactors>,
+        entities        : &Entities,
     ){
+        // The insertion is a no-op if the entity was despawned before the insert command was applied.
+        if !entities.contains(entity) { return; }
+
         let rtype = EntityReactionType::Insertion(TypeId::of::<C>());
 
         // entity-specific reactors
